@@ -67,6 +67,15 @@ class Msg:
         self.nframes = 1 if nbytes <= 6 else 1 + (nbytes - 6 + 6) // 7
 
 
+class Claim:
+    """An ISO address claim (PGN 60928) from some address, between the frames of other devices' fast packets."""
+    __slots__ = ("src", "name", "stream", "index", "payload", "seq", "obs")
+
+    def __init__(self, src, name):
+        self.src, self.name = src, name
+        self.stream, self.index, self.payload, self.seq, self.obs = (60928, src, 255, 0), 0, name.to_bytes(8, "little"), 0, None
+
+
 def frames_of(m: Msg, pad):
     return wire.fast_frames(m.payload, m.seq, pad)
 
@@ -76,6 +85,9 @@ def expected_returns(events):
     cur = {}          # stream -> [msg, set(frame idx), returned]
     out = []
     for m, i in events:
+        if isinstance(m, Claim):
+            out.append(m)                     # an address claim: returned as a message of its own, no part of any stream
+            continue
         st = cur.get(m.stream)
         if i == 0:
             st = cur[m.stream] = [m, {0}, False]
@@ -150,6 +162,13 @@ def run_history(events, acc, label, faults: bool, formats=("ebyte",)):
             got = []
             cache = {}
             for pos, (m, i) in enumerate(events):
+                if isinstance(m, Claim):
+                    try:
+                        dec.decode_tcp(wire.ebyte_frame(wire.can_id(6, 60928, m.src, 255), m.payload))
+                    except Exception:  # noqa: BLE001
+                        pass
+                    got.append("claim")
+                    continue
                 key = (id(m), pad)
                 if key not in cache:
                     cache[key] = frames_of(m, pad)
@@ -207,6 +226,7 @@ def run_history(events, acc, label, faults: bool, formats=("ebyte",)):
 def witness(events, label, pad, pos, observed=None):
     return {"label": label, "pad": pad, "position": pos, "observed": observed,
             "events": [[list(m.stream), m.index, i, len(m.payload), m.seq] for m, i in events][:120],
+            "claims": [[m.src, m.name] for m, _ in events if isinstance(m, Claim)] or None,
             "real_payloads": {f"{m.stream[0]}#{m.index}": m.payload.hex() for m, _ in events if m.obs is not None} or None}
 
 
@@ -397,6 +417,15 @@ def random_histories(spec, acc):
         merged = scripts[0]
         for s in scripts[1:]:
             merged = next(interleavings(merged, s, 1, rng)) if len(merged) + len(s) > 20 else rng.choice(list(interleavings(merged, s, 200, rng)))
+        if h % 2 == 0:
+            # address claims in between - first claims and take-overs (another NAME on the same address) - from addresses
+            # whose decimal digits are a prefix of the streams' sources and destinations (2, 21, 25, 4, 44 ...) and from others
+            from ..hist import claim_name
+            addrs = [2, 25, 4, 44, 21, 3, 250, rng.randrange(252)]
+            for _ in range(rng.randint(2, 8)):
+                a_ = rng.choice(addrs)
+                merged.insert(rng.randrange(len(merged) + 1), (Claim(a_, claim_name(rng.randrange(1 << 20), rng.choice([1851, 137, 229]))), 0))
+            acc.count("histories_with_address_claims_in_between")
         run_history(merged, acc, f"random #{h}", True, formats=("ebyte", "ebyte_view") if h % 3 == 0 else (("ebyte", "usb_view") if h % 3 == 1 else ("ebyte",)))
         acc.cover("history_lengths", len(merged) // 50 * 50)
     acc.sample({"kind": "random", "streams": len(streams)})
